@@ -417,7 +417,7 @@ func c15Run(r *vkit.Run) {
 		fn()
 		r.NonTrivial()
 	})
-	r.Note("bounds", fmt.Sprintf("0..%d containers x 3 entry-count patterns x 3 timestamp patterns (distinct interleaved, all equal, reversed) x 21 message offsets x up to 3 stream rotations x 8 option combinations; plus all results of 2 streams x <=2 entries over 2 timestamps x 21 messages (1/%d lattice on the second stream) in 4 stream-identity variants; every byte value 0..255 alone, doubled and inside a message; end to end (argv -> fake daemon -> printed bytes): 1-3 containers x 4 timestamp patterns (one going back in time inside a container) x 11 message offsets (two of 16 KiB and more without a line break, one with escape sequences of its own) x 20 spellings of the --timestamp/-t, --container/-c, --color flags incl. their defaults, and four kinds of result without entries; about a third of these also through rootCmd of main.go under a top-level command that carries the CLI's stdout stream (the plugin host's wiring); --limit -1..10 over 9 entries of 3 containers in 2 spellings, both ways of reaching the command", maxN, step))
+	r.Note("bounds", fmt.Sprintf("0..%d containers x 3 entry-count patterns x 3 timestamp patterns (distinct interleaved, all equal, reversed) x 21 message offsets x up to 3 stream rotations x 8 option combinations; plus all results of 2 streams x <=2 entries over 2 timestamps x 21 messages (1/%d lattice on the second stream) in 4 stream-identity variants; every byte value 0..255 alone, doubled and inside a message; end to end (argv -> fake daemon -> printed bytes): 1-3 containers x 4 timestamp patterns (one going back in time inside a container) x 11 message offsets (two of 16 KiB and more without a line break, one with escape sequences of its own) x 20 spellings of the --timestamp/-t, --container/-c, --color flags incl. their defaults, and four kinds of result without entries; about a third of these also through rootCmd of main.go under a top-level command that carries the CLI's stdout stream (the plugin host's wiring); --limit -1..10 over 9 entries of 3 containers in 2 spellings, and 0..5 under 5 filtering queries, both ways of reaching the command; 9 query texts with escaped quotes, runs of blanks, tabs, line breaks and comments; one container under 4 parser queries giving 12 streams; last bytes delivered together with io.EOF (whole, blocks of 7 and 64)", maxN, step))
 }
 
 // ---- end to end: the command itself, from argv over a fake daemon to the printed bytes ----
@@ -752,6 +752,52 @@ func c15E2ERun(r *vkit.Run, one func(fn func())) {
 				for _, plug := range []bool{false, true} {
 					in := c15E2EInput{Args: f.args, Timestamp: f.ts, Container: f.ct, Color: f.co, Logs: c.logs, Query: c.q, Want: c.logs, Plugin: plug}
 					one(func() { c15E2ECheck(r, in) })
+				}
+			}
+		}
+	}
+	// --limit counts matching records, not records read: label filters after a parser stage, a line filter, and both,
+	// over two containers whose first records do not match
+	{
+		var logs, wantErr, wantX []c15Stream
+		for i := 0; i < 2; i++ {
+			s, we, wx := c15Stream{Container: fmt.Sprintf("c%d", i)}, c15Stream{Container: fmt.Sprintf("c%d", i)}, c15Stream{Container: fmt.Sprintf("c%d", i)}
+			for j := 0; j < 6; j++ {
+				lvl := "info"
+				if j >= 2 && (j+i)%2 == 0 {
+					lvl = "error"
+				}
+				e := c15Entry{TS: base + int64(j*2+i)*1000000007, Msg: fmt.Sprintf("level=%s n=%d%d", lvl, i, j)}
+				s.Entries = append(s.Entries, e)
+				if lvl == "error" {
+					we.Entries = append(we.Entries, e)
+					if j >= 4 {
+						wx.Entries = append(wx.Entries, e)
+					}
+				}
+			}
+			logs, wantErr, wantX = append(logs, s), append(wantErr, we), append(wantX, wx)
+		}
+		for fi, f := range forms {
+			if fi%6 != 0 {
+				continue
+			}
+			for _, c := range []struct {
+				q    string
+				want []c15Stream
+			}{
+				{`{} | logfmt | level="error"`, wantErr},
+				{`{} |= "level=error"`, wantErr},
+				{`{} | logfmt | level!="info"`, wantErr},
+				{`{} | logfmt | level="error" | n=~".[45]"`, wantX},
+				{`{} |= "error" | logfmt | n=~".[45]"`, wantX},
+			} {
+				for lim := 0; lim <= 5; lim++ {
+					for _, plug := range []bool{false, true} {
+						l := lim
+						in := c15E2EInput{Args: append(append([]string{}, f.args...), fmt.Sprintf("--limit=%d", lim)), Timestamp: f.ts, Container: f.ct, Color: f.co, Logs: logs, Query: c.q, Want: c.want, Limit: &l, Plugin: plug}
+						one(func() { c15E2ECheck(r, in) })
+					}
 				}
 			}
 		}
